@@ -22,6 +22,12 @@ CLAIMED = {
     "C05": ("fault_enumeration", "DESIGN.md 4 (C05), 2.5", "deterministic simulation with exhaustive structure-guided storage-damage enumeration per seeded world: every prefix, field x boundary-value grid, multi-field templates, flips, splices; long-lived archive object vs fresh-object-per-call model; extent oracle on the damaged bytes; sanitizers and I/O-step watchdog",
             "Each run builds one small valid VOL, CLM or WAV with the independent encoders and then executes ALL its damage variants (every truncation point, every integer field x ~50 boundary values, coordinated multi-field corruptions such as index length + header length raised together or a name terminator overwritten, bit flips, region exchanges). Every damaged archive is opened once and driven through a seeded call sequence; each call is repeated on a freshly opened object and outcome class and value must agree (usable-after-failure); delivered member streams must equal the file bytes at the recorded extent or be refused; crashes, sanitizer reports, non-std exceptions and calls exceeding the I/O step budget are violations. Exhaustive over the enumerated damage of each sampled world, sampling over worlds and call sequences.",
             "Byte strings reached are structure-guided damage of valid files, not the full 2^(8n) space and not coverage-guided mutation; ASan/UBSan/_GLIBCXX_ASSERTIONS are the memory/arithmetic oracle; finite memory is simulated by a 32 MiB allocation cap (bad_alloc counts as an ordinary error)."),
+    "C06": ("exploration", "DESIGN.md 4 (C06)", "seeded deterministic simulation through the stream seam: reference-encoded maps read on memory/file/file-slice/SimReader backends with consumed-byte accounting, rewritten and compared with the independent MAP codec, then seeded edit histories mirrored on the model",
+            "Seeded well-formed maps from an independent encoder (log-width 0..10, heights 0..64, arbitrary tile words, 0..6 tileset sources with empty and non-empty names, mapping/terrain/group tables incl. zero-area groups, arbitrary saved-game flag and version tags, optional trailing junk) are read through four reader backends under short reads/EINTR; every field is compared with the reference decode, the bytes consumed are counted at the seam (trailing bytes untouched), the rewrite must equal the consumed bytes up to the two documented normalisations and be byte-stable, and after every seeded edit history (cell type, lava-possible, version tag, trim) the written bytes must equal the model's encoding. The success path has no fault space of its own; the seams contribute consumption accounting, backend agreement and transparent I/O faults. Sampling evidence, not proof.",
+            "Trusts sim/models/refmap.h (MAP layout per the format notes); edits only on maps of width >= 32 with in-range coordinates."),
+    "C07": ("fault_enumeration", "DESIGN.md 4 (C07), 2.5", "deterministic simulation with exhaustive structure-guided damage enumeration per seeded map / saved game: every prefix (crash points of a writer), field x boundary grid, log-width/height wrap templates, flips; memory, file and SimReader backends; sanitizers, self-consistency and prefix-refusal oracles",
+            "Each run encodes one small valid map or saved game (0x1E025-byte prefix + embedded map + unit block) with the independent codec and executes all its damage variants: every truncation point (saved games: every structural boundary +-1, 4 KiB multiples, 64 seeded points), every header/length field x ~50 boundary values, (log-width, height) pairs with log-width >= 32 or products beyond 32 bits, group width x height wraps, bit flips, splices. Oracles: no sanitizer report / non-std exception / hang; an accepted result has exactly width x height tiles with width a power of two (mathematical integers); any prefix cutting into the consumed portion is refused; the undamaged saved game yields the same embedded map as the reference decode.",
+            "Structure-guided damage of valid files, not all byte strings; allocation cap 32 MiB stands for finite memory."),
     "C12": ("exploration", "DESIGN.md 4 (C12), 2.3", "seeded deterministic simulation: reader actors vs byte-vector/cursor reference model, boundary/wrap argument classes, transparent I/O faults",
             "Seeded search over operation histories (reads, partial reads, peeks, seeks, typed helpers) on memory readers, memory slices, file slices and nested slices; every step is compared with a reference cursor model, destination buffers are exactly sized heap blocks under ASan, refused operations are checked for atomicity on the following steps. Sampling evidence, not proof.",
             "Trusts the reference model in sim/scen/stream_actors.cpp and ASan/UBSan/_GLIBCXX_ASSERTIONS for memory errors; file-backed actors run over real libstdc++ filebuf on tmpfs with injected short reads and EINTR."),
